@@ -108,7 +108,8 @@ RULE = ('tls case = (prefix in {none, EHLO, EHLO+MAIL, EHLO+MAIL+RCPT, EHLO+AUTH
         'challenge/response, lower-case, mixed-case, cancel, bad base64 x4, raw 8-bit, "=", empty response, bare AUTH, '
         'unknown / 8-bit mechanism, extra arguments, no-NUL / non-UTF-8 / non-Bearer payload ...) x channel {clear with '
         'STARTTLS offered, clear on a server without TLS context, after STARTTLS, immediate TLS} x server auth '
-        'configuration {explicit list of all five, auth=True defaults} x gate {none, before-ehlo, after-success, '
+        'configuration {explicit list of all five, auth=True defaults} x gate {none, before-ehlo, HELO greeting in '
+        'force: helo-only / +RSET / +NOOP / +transaction / EHLO-then-HELO / HELO-HELO, after-success, '
         'in-transaction, '
         'in-transaction-rcpt, retry-535, retry-454, history-{ehlo, helo, rset, transaction, starttls} x first '
         'mechanism x second identity {same, different}} x verdict {235, 535, 454, handler raises} x target '
@@ -147,6 +148,8 @@ REQUIRED_HITS = ['tls-reply-count-compared', 'tls-first-reply-checked', 'encrypt
                  'starttls-refused-in-history-checked', 'starttls-probe-after-helo-over-tls',
                  'immediate-offer-history-checked', 'clear-offer-history-checked', 'clear-offer-history-after-helo',
                  'handshake-callbacks-in-history-counted',
+                 # HELO greeting in force (seed C08i)
+                 'auth-after-helo-greeting-checked', 'starttls-after-helo-only-checked',
                  # empty SASL responses (seed C08g)
                  'auth-equals-initial-response-driven', 'auth-empty-exchange-challenge-count-checked',
                  'auth-empty-exchange-followups-checked', 'auth-empty-credentials-compared']
@@ -755,6 +758,12 @@ CHANNELS = ['clear', 'starttls', 'immediate', 'clear-notls']
 CLEAR = ('clear', 'clear-notls')
 MECHS = ['PLAIN', 'LOGIN', 'CRAM-MD5', 'XOAUTH2', 'EXTERNAL']
 GATES = ['before-ehlo', 'after-success', 'in-transaction', 'in-transaction-rcpt', 'retry-535', 'retry-454']
+# "AUTH is refused before EHLO": the greeting in force is a HELO (seed C08i) -- HELO only, HELO + more, EHLO then HELO
+HELO_GATES = {'helo-only': [b'HELO auth.test'], 'helo-rset': [b'HELO auth.test', b'RSET'],
+              'helo-noop': [b'HELO auth.test', b'NOOP'],
+              'helo-txn': [b'HELO auth.test', b'MAIL FROM:<h@x>', b'RCPT TO:<hr@x>', b'DATA',
+                           b'Subject: h\r\n\r\nhelo body\r\n.'],
+              'ehlo-then-helo': [b'EHLO auth.test', b'HELO again.test'], 'helo-helo': [b'HELO a.test', b'HELO b.test']}
 # multi-step histories after a successful AUTH, each followed by another AUTH that must still be refused
 HISTORY_STEPS = {'ehlo': 'EHLO', 'helo': 'HELO', 'rset': 'RSET', 'transaction': 'transaction', 'starttls': 'STARTTLS'}
 PLAINTEXT_MECHS = ('PLAIN', 'LOGIN', 'XOAUTH2')       # the secret / bearer token itself goes over the wire
@@ -914,6 +923,11 @@ def auth_grid(rnd, draws):
                         if target == 'edge' and gate in ('in-transaction-rcpt', 'retry-454'):
                             continue
                         yield case(mech, OK_SHAPES[mech][0], channel, gate=gate, target=target)
+            for mech in MECHS:
+                if is_clear(channel) and mech in PLAINTEXT_MECHS:
+                    continue
+                for n, gate in enumerate(sorted(HELO_GATES)):
+                    yield case(mech, OK_SHAPES[mech][n % 2], channel, gate=gate, target=('server', 'edge')[n % 2])
             # auth=True: the mechanisms pysasl enables by default; the others are then not offered
             for n, mech in enumerate(MECHS):
                 yield case(mech, OK_SHAPES[mech][0], channel, authcfg='defaults', target=('server', 'edge')[n % 2])
@@ -973,7 +987,7 @@ def random_auth(rnd):
     gate = 'none'
     if shape_class(mech, shape) == 'ok' and rnd.random() < 0.35 and not (is_clear(channel) and
                                                                         mech in PLAINTEXT_MECHS):
-        gate = rnd.choice(GATES)
+        gate = rnd.choice(GATES + sorted(HELO_GATES))
     verdict = rnd.choice(['235', '235', '535', '454', 'raise'])
     if verdict == 'raise' and (gate != 'none' or shape_class(mech, shape) != 'ok'):
         verdict = '535'
@@ -1224,6 +1238,11 @@ def run_tls_case(case, R):
             if verb != VERBS[0]:
                 R.hit('starttls-line-respelled')
         r = w.reply()
+        if prefix == 'helo':
+            R.hit('starttls-after-helo-only-checked')
+            if code(r) == '220':
+                R.violation('server/starttls-accepted-after-helo-only', 'prefix=helo payload=%s: STARTTLS after a HELO-only '
+                            'greeting answered %r' % (pk, r), {'case': case, 'wire': w.log[:12]})
         if code(r) != '220':
             # refusing STARTTLS (e.g. before EHLO, or a server that refuses it with pending input) keeps
             # the boundary trivially: nothing is encrypted afterwards
@@ -1477,7 +1496,14 @@ def run_auth_case(case, R):
     if channel == 'starttls':
         if code(w.cmd(b'EHLO pre.test')) != '250' or code(w.cmd(b'STARTTLS')) != '220' or not w.handshake():
             return abort('STARTTLS set-up failed')
-    if not (gate == 'before-ehlo'):
+    if gate in HELO_GATES:
+        for st in HELO_GATES[gate]:
+            r = w.cmd(st)
+            if code(r) != ('354' if st == b'DATA' else '250'):
+                return abort('greeting-history step %r answered %r' % (st, r))
+        R.hit('auth-after-helo-greeting-driven')
+        R.observe('auth-after-helo', (gate, channel, mech, target))
+    elif not (gate == 'before-ehlo'):
         ehlo = w.cmd(b'EHLO auth.test')
         if code(ehlo) != '250':
             return abort('EHLO refused')
@@ -1684,6 +1710,13 @@ def run_auth_case(case, R):
         return
 
     # ---- sequence gates
+    if gate in HELO_GATES:
+        R.hit('auth-after-helo-greeting-checked')
+        if not is_err(first) or new_calls or authed_after:
+            V(M_AUTH_BEFORE_EHLO + '/after-HELO', 'the greeting in force is HELO (%s): AUTH answered %r (final %r), '
+              'application callback invoked %d time(s), authenticated=%r'
+              % (gate, first, final, new_calls, authed_after))
+        return
     if gate in ('before-ehlo', 'after-success', 'in-transaction', 'in-transaction-rcpt'):
         R.hit('auth-sequence-gate-checked')
         if gate == 'after-success' and code(pre['final']) != '235':
